@@ -88,6 +88,16 @@ func b2s(b bool) string {
 	return "0"
 }
 
+// sameOf: the `same` argument of Runs for the sub-commands "runs" (an equivalence: equal table entries) and
+// "runsle" (a preorder: table[x] <= table[y] -- reflexive and transitive, which is all Runs' documentation
+// requires of same; not symmetric, so "same as the predecessor" and "same as the head of the run" differ).
+func sameOf(fn string, t []int) func(x, y int) bool {
+	if fn == "runsle" {
+		return func(x, y int) bool { return tableAt(t, x) <= tableAt(t, y) }
+	}
+	return func(x, y int) bool { return tableAt(t, x) == tableAt(t, y) }
+}
+
 func tableAt(t []int, x int) int {
 	if len(t) == 0 {
 		return 0
@@ -407,10 +417,9 @@ func impl(c Case) string {
 			s := clone(decList(a[0]))
 			ret := xslices.UniqueInPlace(s)
 			return "ret=" + encList(ret) + " arr=" + encList(s)
-		case "runs":
+		case "runs", "runsle":
 			s := clone(decList(a[0]))
-			t := decList(a[1])
-			return rangesOf(s, xslices.Runs(s, func(x, y int) bool { return tableAt(t, x) == tableAt(t, y) }))
+			return rangesOf(s, xslices.Runs(s, sameOf(c.Fn, decList(a[1]))))
 		case "shrink":
 			l := decList(a[0])
 			cp := atoi(a[1])
@@ -576,7 +585,7 @@ func keys(c int, l []int) []int {
 // canonModel post-processes the model's output line for a case.
 func canonModel(c Case, out string) string {
 	switch c.Fn {
-	case "chunk", "runs":
+	case "chunk", "runs", "runsle":
 		return canonRanges(out)
 	}
 	return out
@@ -792,7 +801,7 @@ func randErr(r *vlib.Rand) string {
 	return e
 }
 
-var fnNames = append([]string{"chunk", "removeunordered", "reverse", "partition", "unique", "uniqueinplace", "runs", "shrink",
+var fnNames = append([]string{"chunk", "removeunordered", "reverse", "partition", "unique", "uniqueinplace", "runs", "runsle", "shrink",
 	"search", "lesscompare", "merge", "mergeslices", "mink", "union", "intersection", "intersects", "difference",
 	"mapreverse", "reversesingle", "toindex", "fromkv", "abs", "clamp", "extras", "withstack", "wsws", "wsunwrap", "unwrap", "is", "wsis", "as", "wsas"}, moreFns...)
 
@@ -940,6 +949,10 @@ func genCase0(r *vlib.Rand, fn string, big bool) Case {
 	case "runs":
 		mod := r.Range(1, 6)
 		return Case{fn, []string{encList(randList(r, n, 1, 12)), encList(randTable(r, mod, r.Range(1, 3)))}}
+	case "runsle":
+		// same(x, y) = table[x] <= table[y]: reflexive and transitive (all that Runs documents), not symmetric
+		mod := r.Range(2, 7)
+		return Case{fn, []string{encList(randList(r, n, 1, 12)), encList(randTable(r, mod, r.Range(2, 5)))}}
 	case "shrink":
 		l := randList(r, n, 1, 9)
 		return Case{fn, []string{encList(l), I(n + r.Intn(6)), I(r.Range(-2, 6))}}
@@ -1104,6 +1117,9 @@ func exhaustive(run *runner, maxLen int, deadline time.Time) bool {
 	for _, cl := range [][]int{{0, 1, 1, 1}, {0, 1, 1, 2}, {0, 1, 2, 1}, {0, 1, 2, 2}, {0, 1, 2, 3}} {
 		classes = append(classes, encList(cl))
 	}
+	// Runs with a preorder same(x, y) = t[x] <= t[y] (tables indexed by x mod 4; symbols 1..3): the three symbols
+	// strictly ordered either way, with one tie, and with the middle symbol lowest / highest
+	leTables := []string{"0,1,2,3", "0,3,2,1", "0,1,1,2", "0,2,1,1", "0,2,1,3", "0,1,3,2"}
 	// Search on tie-heavy sorted slices: every non-decreasing slice of length <= maxLen+4 over the symbols
 	// 1..3 (i.e. every arrangement of tie runs at the head, in the middle and at the tail) x every order
 	// (key = x/c: under c = 2 the symbols 2 and 3 tie, under c = 3 the symbols 1 and 2; both directions) x
@@ -1149,6 +1165,9 @@ func exhaustive(run *runner, maxLen int, deadline time.Time) bool {
 		}
 		for _, cl := range classes {
 			add(Case{"runs", []string{el, cl}})
+		}
+		for _, cl := range leTables {
+			add(Case{"runsle", []string{el, cl}})
 		}
 		exhaustiveMore(l, preds, classes, add)
 		for idx := -2; idx <= n+2; idx++ {
@@ -1337,10 +1356,10 @@ func main() {
 	res := vlib.NewResult("C19", "one case = one call of one helper (73 sub-commands, one per exported helper of xslices, xsort, xmaps, xmath, xerrors, each compared with its Lean model; "+
 		"extras = the documentation monitors of the 42 small loops / thin wrappers on one input; slices with spare capacity (cap = len, len+1, len+3, ...) for the in-place and aliasing effects); "+
 		"random cases with lengths 0..1000, arguments in [-2, len+2], orders with ties (key = x/c, optionally reversed), predicate and "+
-		"equivalence-class tables, error chains incl. already wrapped / fmt.Errorf(%w) / non-comparable leaves; plus the corpus; "+
+		"equivalence-class tables (Runs also with the preorder table[x] <= table[y]: reflexive, transitive, not symmetric), error chains incl. already wrapped / fmt.Errorf(%w) / non-comparable leaves; plus the corpus; "+
 		"non-trivial = the arguments hold at least 3 list elements / chain links (always for abs, clamp, chunk, shrink); distinct = different protocol line. "+
 		"Exhaustive scope: every slice of length <= L over 3 symbols x every index/count argument in [-2, len+2] x all 8 predicates / 5 class "+
-		"patterns / 6 orders, Search on every non-decreasing slice of length <= L+4 over 3 symbols x 6 orders x 5 items against the exact lower bound, all families of <= 3 subsets of a 3-element universe, all maps over 3 keys, every int8, every error chain of depth <= 4 "+
+		"patterns / 6 preorder tables / 6 orders, Search on every non-decreasing slice of length <= L+4 over 3 symbols x 6 orders x 5 items against the exact lower bound, all families of <= 3 subsets of a 3-element universe, all maps over 3 keys, every int8, every error chain of depth <= 4 "+
 		"(L = 4 quick, 7 thorough)")
 	m, err := vlib.StartModel(env.Driver, "helpers")
 	if err != nil {
